@@ -64,6 +64,26 @@ CLAIMED = {
                 "correct or the characterised wrong value is accepted.",
         "design_ref": "DESIGN.md §3 C09",
     },
+    "C11": {
+        "text": "For entries of the LOADED timezone table (42 offsets x up to 11 spellings, ~390 abbreviations in upper "
+                "and lower case and in parentheses; quick tier: one spelling per offset, every non-plain-uppercase name "
+                "and a seed-rotated eighth of the rest) the public entry get_date_data is executed on 'date-time + tz' with "
+                "the time digits symbolic (and with ALL body digits symbolic for selected spellings, where body digits "
+                "could be swallowed by an offset pattern); the real first-match loop over the 773 patterns runs "
+                "symbolically; z3 shows per path that the result is aware, its offset is the listed one and its wall "
+                "clock is the written one. Pickling/copying is outside. One open known finding (abbreviations with "
+                "diacritics).",
+        "design_ref": "DESIGN.md §3 C11",
+    },
+    "C12": {
+        "text": "For ordered pairs (TIMEZONE, TO_TIMEZONE) from a pool of fixed-offset zone spellings, the three "
+                "RETURN_AS_TIMEZONE_AWARE values and the four parsers (timestamp, relative incl. a zone written in the "
+                "phrase, custom-format, absolute incl. a zone written in the string) the public entry is executed with "
+                "the local date-time (1950-2037) symbolic; z3 shows per path that the result is the same instant "
+                "re-expressed in the target zone (pair arithmetic on ordinal/µs-of-day) and that awareness follows the "
+                "statement's table. Zones with DST transitions are outside (stated).",
+        "design_ref": "DESIGN.md §3 C12",
+    },
     "C19": {
         "text": "The real _load_offsets and the real C pickle.load are executed over a file proxy whose length k is a z3 "
                 "integer in [0, N] (shipped cache and 7 other contents: wrong-shape pickles, non-pickle bytes), plus the "
